@@ -117,16 +117,19 @@ fn check_edge(e: &Edge, w: u64) -> Result<bool, String> {
             let b = e.act.b;
             let v = e.act.v as u64;
             catch_unwind(AssertUnwindSafe(|| {
+                // return values (if a revision adds any) are not part of the contract checked here
                 if v == 0 {
-                    h.unset(b)
+                    let _ = h.unset(b);
                 } else {
-                    h.set(b, U256ED::from(v))
+                    let _ = h.set(b, U256ED::from(v));
                 }
             }))
         }
         "reorg" => {
             let n = e.act.b;
-            catch_unwind(AssertUnwindSafe(|| h.reorg(n)))
+            catch_unwind(AssertUnwindSafe(|| {
+                let _ = h.reorg(n);
+            }))
         }
         "isold" => {
             // one-sided: a history may only be reported old (and then be dropped at commit) when its
@@ -170,7 +173,7 @@ fn check_edge(e: &Edge, w: u64) -> Result<bool, String> {
     for n in 0..=top {
         let mut c = h.clone();
         let r = catch_unwind(AssertUnwindSafe(|| {
-            c.reorg(n);
+            let _ = c.reorg(n);
             unval(&c.latest())
         }));
         let ev = e.exp.v[n as usize];
